@@ -27,6 +27,9 @@ func (g *fmtGen) block(list []ast.Stmt) ([]string, error) {
 		case "dir, file := filepath.Split(path)":
 			out = append(out, "SSplitPath")
 			continue
+		case "if dir == \"\" { dir = \".\" }":
+			out = append(out, "SDirDot")
+			continue
 		case "f, err := os.CreateTemp(dir, file)":
 			out = append(out, "SCreateTemp")
 			continue
@@ -72,6 +75,8 @@ func (g *fmtGen) block(list []ast.Stmt) ([]string, error) {
 			out = append(out, "SIfNoErr "+coqList(body, 0))
 		case ifs.Init == nil && cond == "err != nil":
 			out = append(out, "SIfErr "+coqList(body, 0))
+		case ifs.Init != nil && cond == "err != nil" && g.src(ifs.Init) == "err = os.Rename(tmpfile, path)":
+			out = append(out, "SRenameElse "+coqList(body, 0))
 		case ifs.Init != nil && cond == "e == nil" && g.src(ifs.Init) == "fi, e := os.Stat(path)":
 			out = append(out, "SIfStat true "+coqList(body, 0))
 		case ifs.Init != nil && cond == "e == nil" && g.src(ifs.Init) == "fi, e := os.Lstat(path)":
